@@ -217,6 +217,8 @@ async fn do_run_worterbuch(
 }
 
 async fn process_api_call(worterbuch: &mut Worterbuch, function: WbFunction) {
+    #[cfg(feature = "verif")]
+    crate::verif::perturb("core-before-request").await;
     match function {
         WbFunction::Get(key, tx) => {
             tx.send(worterbuch.get(&key)).ok();
